@@ -30,6 +30,42 @@ func init() {
 		})
 }
 
+// noTxFact: the branch facts at b include `getCurrentTransaction() == nil`.
+func noTxFact(b *ssa.BasicBlock) bool {
+	for _, fc := range factsAt(b) {
+		e, neq, ok := nilCmp(fc.cond)
+		if !ok {
+			continue
+		}
+		for _, v := range phiInputs(e) {
+			if cl, ok := v.(*ssa.Call); ok && cl.Call.StaticCallee() != nil && cl.Call.StaticCallee().Name() == "getCurrentTransaction" && fc.truth != neq {
+				return true
+			}
+		}
+	}
+	return false
+}
+
+// noTxAtEveryCallSite: f is unexported, is called at least once inside the package, and every call site is on the
+// no-transaction edge of its caller (split-function refactorings move the base-trie tail of a method into a helper).
+func noTxAtEveryCallSite(c *Ctx, sp *ssa.Package, f *ssa.Function) bool {
+	if f.Object() == nil || f.Object().Exported() {
+		return false
+	}
+	n, all := 0, true
+	for _, g := range allFuncs(c, sp) {
+		eachInstr(g, func(b *ssa.BasicBlock, _ int, in ssa.Instruction) {
+			if call, ok := in.(ssa.CallInstruction); ok && call.Common().StaticCallee() == f {
+				n++
+				if _, isGo := in.(*ssa.Go); isGo || !noTxFact(b) {
+					all = false
+				}
+			}
+		})
+	}
+	return n > 0 && all
+}
+
 func (c *Ctx) ruleOverlay() {
 	sp := c.ssaPkg(rtStorageDir)
 	if sp == nil {
@@ -65,6 +101,9 @@ func (c *Ctx) ruleOverlay() {
 				if isCur && fc.truth != neq {
 					noTx = true
 				}
+			}
+			if !noTx && noTxAtEveryCallSite(c, sp, f) {
+				noTx = true // an unexported helper that is only entered from call sites where no transaction is open
 			}
 			c.ob("R-OVERLAY/O1", fmt.Sprintf("%s:%s#%d", relName(f.String()), call.Call.Method.Name(), ord), call.Pos(), noTx,
 				fmt.Sprintf("%s calls %s on the base trie on a path where a transaction may be open: the change cannot be rolled back", shortFn(f), call.Call.Method.Name()))
